@@ -332,6 +332,12 @@ def to_cnf(e: ast.expr, polarity: bool, res: Resolver) -> list[frozenset]:
                         return [frozenset({('opaque', ast.unparse(e), polarity)})]
             acc = new
         return acc
+    # membership in a literal collection is a disjunction of equalities
+    if isinstance(e, ast.Compare) and len(e.ops) == 1 and isinstance(e.ops[0], (ast.In, ast.NotIn)) \
+            and isinstance(e.comparators[0], (ast.List, ast.Tuple, ast.Set)) and 1 <= len(e.comparators[0].elts) <= 8:
+        alts = [ast.Compare(left=e.left, ops=[ast.Eq()], comparators=[x]) for x in e.comparators[0].elts]
+        eq = ast.BoolOp(op=ast.Or(), values=alts) if len(alts) > 1 else alts[0]
+        return to_cnf(eq, polarity if isinstance(e.ops[0], ast.In) else not polarity, res)
     kind = expr_literal(e, res)
     if kind[0] == 'const':
         v = kind[1] if polarity else not kind[1]
